@@ -307,6 +307,9 @@ def _helper_return(call):
     return R().visit(ast.parse(texts.pop(), mode='eval').body)
 
 
+TRUTHY = []
+
+
 class _ProtoEval:
     def __init__(self, T, in_methods, has_attr, env):
         self.T, self.inm, self.has, self.env = T, in_methods, has_attr, env
@@ -333,6 +336,9 @@ class _ProtoEval:
             h = _helper_return(n)
             if h is not None:
                 return self.ev(h)
+            hb = self._helper_body(n)
+            if hb is not None:
+                return self._exec_helper(hb)
             f = norm(n.func)
             if f == 'self.init_methods.get' and n.args and norm(
                     n.args[0]) == self.T:
@@ -356,6 +362,60 @@ class _ProtoEval:
             return self.ev(n.body if self.cond(n.test) else n.orelse)
         raise AnalysisError(f'initialiser expression {t} not understood')
 
+    def _helper_body(self, call):
+        """Body of a private method of Prototype called as self._m(args), its
+        parameters replaced by the arguments and its aliases of attributes of
+        self (`tab = self.init_methods`) written out."""
+        import copy
+        program = PROGRAM[0]
+        d = dotted(call.func) or ''
+        if program is None or call.keywords or not (
+                d.startswith('self._') and d.count('.') == 1):
+            return None
+        g = program.resolve_method(program.cls('Prototype'), d.split('.')[1])
+        if g is None or len(g.params()) - 1 != len(call.args) or any(
+                isinstance(x, (ast.Yield, ast.YieldFrom, ast.For, ast.While,
+                               ast.Try, ast.With)) for x in ast.walk(g.node)):
+            return None
+        m = dict(zip(g.params()[1:], call.args))
+        body = []
+        for st in _body(g):
+            if isinstance(st, ast.Assign) and len(st.targets) == 1 \
+                    and isinstance(st.targets[0], ast.Name) and isinstance(
+                        st.value, ast.Attribute) and norm(
+                            st.value.value) == 'self':
+                m[st.targets[0].id] = st.value
+                continue
+
+            class R(ast.NodeTransformer):
+                def visit_Name(self, x):
+                    return copy.deepcopy(m[x.id]) if x.id in m and \
+                        isinstance(x.ctx, ast.Load) else x
+            body.append(R().visit(copy.deepcopy(st)))
+        return body
+
+    def _exec_helper(self, stmts):
+        for st in stmts:
+            if isinstance(st, ast.Return) and st.value is not None:
+                return self.ev(st.value)
+            if isinstance(st, ast.If):
+                r = self._exec_helper(st.body if self.cond(st.test)
+                                      else st.orelse)
+                if r is not None:
+                    return r
+            elif isinstance(st, ast.Assign) and len(st.targets) == 1 \
+                    and isinstance(st.targets[0], ast.Name):
+                self.env[st.targets[0].id] = st.value
+            elif isinstance(st, (ast.Pass, ast.Assert)):
+                pass
+            elif isinstance(st, ast.Expr) and isinstance(
+                    st.value, ast.Constant):
+                pass
+            else:
+                raise AnalysisError(f'statement {norm(st)} of the helper '
+                                    'not understood')
+        return None
+
     def cond(self, n):
         if isinstance(n, ast.UnaryOp) and isinstance(n.op, ast.Not):
             return not self.cond(n.operand)
@@ -375,7 +435,11 @@ class _ProtoEval:
                 n.args) == 2 and norm(n.args[0]) == 'self' \
                 and self.name_ok(n.args[1]):
             return self.has
-        return self.ev(n) != NONE
+        r = self.ev(n)
+        if r == SRC_M:
+            # an entry of init_methods decided by its truth value
+            TRUTHY.append(n)
+        return r != NONE
 
     def run(self, stmts):
         """Execute a straight-line / if-structured body abstractly; return
@@ -417,6 +481,7 @@ class _ProtoEval:
 
 
 def check_prototype(program, rep):
+    del TRUTHY[:]
     p = program.cls('Prototype')
     f = p.methods.get('__iter__')
     site = f.where
@@ -548,6 +613,16 @@ def check_prototype(program, rep):
     except AnalysisError as ex:
         rep.inconclusive('C19.prototype', site, f.node.name, str(ex),
                          line=f.node.lineno)
+        return
+    if TRUTHY:
+        rep.bad('C19.prototype', site, TRUTHY[0],
+                f'`{norm(TRUTHY[0])[:80]}`: whether init_methods has an entry '
+                'for the type is decided by the truth value of the entry - an '
+                'initialiser that is callable but falsy (a pool or registry '
+                'object with __len__ / __bool__) is taken for missing and the '
+                'component is built by init_<Name> or the default constructor',
+                line=getattr(TRUTHY[0], 'lineno', f.node.lineno))
+        del TRUTHY[:]
         return
     rep.check(order_ok, 'C19.prototype', site, 'for T in self.component_types',
               'one product per listed type, in order',
